@@ -48,6 +48,9 @@ SUBJECTS = {
     'sweepmatch': ('SweepMatchDecoder', {}, lambda: Toric3DCode(3, 3, 3), None, {}),
     'rotsweepmatch': ('RotatedSweepMatchDecoder', {'max_rounds': 4}, lambda: RotatedPlanar3DCode(3, 3, 2), None, {}),
     'xcube': ('XCubeMatchingDecoder', {}, lambda: XCubeCode(2, 2, 2), None, {}),
+    # the same (code, noise, decoder, rate) twice in one batch (a repeated rate in a
+    # specification): two simulations with identical inputs, each with its own trials
+    'matching-twice': ('MatchingDecoder', {}, lambda: Toric2DCode(3, 3), None, {}),
 }
 
 
@@ -83,9 +86,9 @@ def build(subject, out, save_frequency, compressed):
         code.deform(cdef)
     em = PauliErrorModel(0.2, 0.3, 0.5, **nkw)
     batch = BatchSimulation(out, save_frequency=save_frequency, update_frequency=1000, verbose=False)
-    for p in (0.15, 0.3):
+    for j, p in enumerate((0.15, 0.3) if not subject.endswith('-twice') else (0.3, 0.3)):
         dec = getattr(PD, dname)(code, em, p, **dkw)
-        batch.append(DirectSimulation(code, em, dec, p, rng=np.random.default_rng(int(p * 100)),
+        batch.append(DirectSimulation(code, em, dec, p, rng=np.random.default_rng(int(p * 100) + j),
                                       verbose=False, compress=compressed))
     return batch
 
